@@ -31,15 +31,17 @@ const tsBase = uint64(1700000000000)
 
 // physical configuration of one layout
 type LayoutCfg struct {
-	Name   string `json:"name"`
-	Every  int    `json:"every"`  // flush after every k events (0 = one flush at the end)
-	Rotate int    `json:"rotate"` // rotate after every r flushes (0 = never)
-	Final  bool   `json:"final"`  // rotate after the last flush (false: the last segment stays open)
-	Card   int    `json:"card"`   // dictionary cardinality limit (0 = default 501)
-	PQS    bool   `json:"pqs"`    // persistent queries enabled and the battery registered before ingest
-	Aggs   bool   `json:"aggs"`   // agile-tree aggregations enabled
-	Procs  int    `json:"procs"`  // GOMAXPROCS (0 = default)
-	Perm   []int  `json:"perm"`   // ingest order (indices into the event list)
+	Name    string `json:"name"`
+	Every   int    `json:"every"`   // flush after every k events (0 = one flush at the end)
+	Rotate  int    `json:"rotate"`  // rotate after every r flushes (0 = never)
+	Final   bool   `json:"final"`   // rotate after the last flush (false: the last segment stays open)
+	Card    int    `json:"card"`    // dictionary cardinality limit (0 = default 501)
+	PQS     bool   `json:"pqs"`     // persistent queries enabled and the battery registered before ingest
+	Aggs    bool   `json:"aggs"`    // agile-tree aggregations enabled
+	Procs   int    `json:"procs"`   // GOMAXPROCS (0 = default)
+	Perm    []int  `json:"perm"`    // ingest order (indices into the event list)
+	Trace   bool  `json:"trace"`   // read from the server's log how each query was served (raw search / pqs)
+	Windows bool   `json:"windows"` // record, after every written record, what getLastRecord() returns per column
 }
 
 type Script struct {
@@ -246,9 +248,7 @@ func runQuery(idx, text string) Obs {
 }
 
 func workerMain(dir, scriptPath, outPath string) {
-	log.SetOutput(io.Discard)
-	log.SetLevel(log.InfoLevel) // the hook reads one Info line per query; nothing is printed
-	log.AddHook(paths)
+	log.SetLevel(log.PanicLevel)
 	b, err := os.ReadFile(scriptPath)
 	if err != nil {
 		fmt.Fprintln(os.Stderr, err)
@@ -261,6 +261,11 @@ func workerMain(dir, scriptPath, outPath string) {
 	}
 	if sc.Cfg.Procs > 0 {
 		runtime.GOMAXPROCS(sc.Cfg.Procs)
+	}
+	if sc.Cfg.Trace {
+		log.SetOutput(io.Discard)
+		log.SetLevel(log.InfoLevel) // the hook reads one Info line per query; nothing is printed
+		log.AddHook(paths)
 	}
 	if err := initNode(dir, sc.Cfg); err != nil {
 		fmt.Fprintln(os.Stderr, "init:", err)
